@@ -554,6 +554,17 @@ pub fn structured_cases(thorough: bool) -> Vec<FileCase> {
             entries: e,
         });
     }
+    // D2. one huge, extremely compressible value (1 MiB of one byte) per codec
+    for &codec in codecs().iter().filter(|c| !cfg!(miri) || **c == CompressionType::None) {
+        let mut e = k2_fixed(&mut rng, 12, 3);
+        e[5].1 = vec![0u8; 1 << 20];
+        e[9].1 = vec![0x61u8; 300_000];
+        out.push(FileCase {
+            label: format!("D2/1MiB-of-zeroes/{}", codec_name(codec)),
+            cfg: WCfg { codec, level: 1, block_size: None, interval: None, levels: Some(1) },
+            entries: e,
+        });
+    }
     // E. every index_levels value (subset in quick)
     let lv: Vec<u8> = if thorough { (0..=255u8).collect() } else { vec![0, 1, 2, 3, 4, 5, 6, 7, 8, 16, 64, 127, 128, 254, 255] };
     for levels in lv {
